@@ -83,6 +83,9 @@ def task_sets(tier):
     for a, b in v3pairs:
         out.append(("v3", [a, b], None))
         out.append(("v3x2", [a, b], None))
+    for a, b in v3pairs[:4]:
+        out.append(("v3x2e", [a, b], None))
+    out.append(("v3x2e", ["getA", "getB", "walk"], 2))
     triples = [("getA", "getB", "getnext"), ("getA", "walk", "setW1"), ("walk", "walk2", "multiget"), ("getA", "bulkwalk", "multisetW")]
     for t in triples:
         out.append(("v2c", list(t), None if tier == "thorough" else 2))
@@ -204,8 +207,17 @@ def make_run(env, names, tick=1.0, mode="tick1"):
         else:
             agent = ragent.V3Agent(DB, [USERS["alice"][0], USERS["bob"][0]], clock=lambda: CLOCK.now)
             clients = [Client("192.0.2.1", lib_creds("alice"), sender=sender)]
-            if env == "v3x2":
+            if env in ("v3x2", "v3x2e"):
                 clients.append(Client("192.0.2.1", lib_creds("bob"), sender=sender))
+        agents = [agent]
+        if env == "v3x2e":
+            # the second client talks to another device (another engine id)
+            agents.append(ragent.V3Agent(DB, [USERS["alice"][0], USERS["bob"][0]], engine_id=b"\x80\x00\x1f\x88\x04agent2", clock=lambda: CLOCK.now))
+
+        def handle(e):
+            a = agents[int(e["task"][1:]) % len(agents)] if len(agents) > 1 and e["task"][1:].isdigit() else agents[0]
+            return a.handle(e["packet"])
+
         order = []  # task index per answered request
         bad_kwargs = []
         stuck = False
@@ -248,11 +260,11 @@ def make_run(env, names, tick=1.0, mode="tick1"):
                     for e in sender.pending:
                         if "answer" not in e:
                             try:
-                                e["answer"] = agent.handle(e["packet"])
+                                e["answer"] = handle(e)
                             except ragent.Drop as d:
                                 e["answer"] = d
                 try:
-                    data = entry["answer"] if arrival else agent.handle(entry["packet"])
+                    data = entry["answer"] if arrival else handle(entry)
                     if isinstance(data, ragent.Drop):
                         raise data
                     sender.answer(j, data)
@@ -280,7 +292,8 @@ def make_run(env, names, tick=1.0, mode="tick1"):
         loop.close()
         CLOCK.tick_per_read = 0.0
         CLOCK.on_read = None
-        verdicts = [e.get("verdict") for e in agent.log]
+        full_log = [e for a in agents for e in a.log]
+        verdicts = [e.get("verdict") for e in full_log]
         refused = [v for v in verdicts if v not in ("ok", "unknown-engine-id")]
         if reboot:
             # what a restart may cost: one refused request per task
@@ -288,7 +301,7 @@ def make_run(env, names, tick=1.0, mode="tick1"):
                 if "not-in-time-window" in refused:
                     refused.remove("not-in-time-window")
         obs = (tuple(sorted(results.items())), stuck, tuple(logged), tuple(refused))
-        info = {"order": order, "max_pending": max_pending, "agent_log": agent.log, "bad_kwargs": bad_kwargs}
+        info = {"order": order, "max_pending": max_pending, "agent_log": full_log, "bad_kwargs": bad_kwargs}
         run.last_info = info
         return obs, []
 
@@ -303,7 +316,7 @@ def solo_results(env, names):
         # same client slot (user) as in the concurrent run
         run = make_run(env, [None] * i + [n]) if False else None
         r = make_run(env, [n])
-        if env == "v3x2" and i % 2 == 1:
+        if env in ("v3x2", "v3x2e") and i % 2 == 1:
             r = make_run_for_user(n, "bob")
         ctx, obs, _ = explore.run_once(r, ())
         out.append(dict(obs[0]).get(0, ("!stuck", None)))
@@ -337,7 +350,7 @@ def make_run_for_user(name, user):
 
 
 def exchanges_of(env, name, user=None):
-    r = make_run(env if env != "v3x2" else "v3", [name])
+    r = make_run(env if env not in ("v3x2", "v3x2e") else "v3", [name])
     explore.run_once(r, ())
     return len(r.last_info["order"])
 
